@@ -420,6 +420,7 @@ package kcp
 // does not discharge within the time limit, and xmit is a uint32 that wraps after 2^32-1
 // transmissions).
 //@ func KCP.flush
+//@   callsite segment.encode requires @C09 [every-emitted-header-carries-the-current-una] arg_seg.una == kcp.rcv_nxt
 //@   ensures @C18 [unsent-segments-carry-no-timer] flushType != 2 && old(kcp.wfU()) ==> kcp.wfU()
 //@   loop 2 invariant @C18 old(kcp.wfU()) ==> kcp.wfU()
 //@   requires kcp.wf()
@@ -436,10 +437,12 @@ package kcp
 //@   ensures @C04 [admission-bounded-by-window] newSegsCount > 0 ==> kcp.snd_buf.rlen() <= cwnd
 //@   ensures @C04 [effective-window] cwnd <= kcp.snd_wnd && cwnd <= old(kcp.rmt_wnd) && (kcp.nocwnd == 0 ==> cwnd <= old(kcp.cwnd))
 //@   loop 1 invariant suffixOf(ptr, buffer) && len(buffer) - len(ptr) <= kcp.mtu
+//@   loop 1 invariant @C09 seg.conv == kcp.conv && seg.una == kcp.rcv_nxt && seg.cmd == 82 && len(seg.data) == 0 && seg.frg == 0
 //@   loop 2 invariant kcp.wfR() && kcp.wfS() && kcp.wfW() && newSegsCount >= 0
 //@   loop 2 invariant kcp.snd_queue.sameOrFresh() && kcp.snd_buf.sameOrFresh()
 //@   loop 2 invariant @C04 newSegsCount > 0 ==> kcp.snd_buf.rlen() <= cwnd
 //@   loop 3 invariant suffixOf(ptr, buffer) && len(buffer) - len(ptr) <= kcp.mtu
+//@   loop 3 invariant @C09 seg.una == kcp.rcv_nxt
 //@   loop 3 invariant kcp.snd_buf.clean() && kcp.wfSb() && kcp.wfSn() && 0 < nextUpdate && nextUpdate <= kcp.interval
 //
 //@ pred sameOrFreshSlice(a []ackItem, b []ackItem) = ref(a) == ref(b) || fresh(a)
